@@ -707,6 +707,14 @@ func (t *ftr) ioExpr(e ast.Expr, hint *ty) (ex, bool) {
 				return ex{fmt.Sprintf("(%d : Int)", v), tInt, false}, true
 			}
 		}
+		if id, ok := e.X.(*ast.Ident); ok && id.Name == "colors" && t.lookup("colors") == nil && t.hasExtra("nocolor") && allPkgs["colors"] != nil {
+			// a function that carries the colour mode: the real escape sequence
+			if v, ok := allPkgs["colors"].values[e.Sel.Name]; ok {
+				if str, ok := allPkgs["colors"].constString(v); ok {
+					return ex{bytesLit(str), tText, false}, true
+				}
+			}
+		}
 		if id, ok := e.X.(*ast.Ident); ok && id.Name == "colors" && t.lookup("colors") == nil {
 			switch e.Sel.Name {
 			case "Yellow", "Green", "Red", "Dim", "BoldWhite", "RedBg", "GreenBG", "Reddiff", "Greendiff":
